@@ -35,10 +35,23 @@ M = [
  ("c11-into-for-every-literal", ["C11"], IT, "                    lit: Lit::Str(_),\n", "                    lit: _,\n"),
  ("c11-only-variant-rule", ["C11"], IT, "                if variants.len() == 1 {", "                if !variants.is_empty() {"),
  ("c11-value-on-variant-accepted", ["C11"], IT, "        if let Some(value) = &a.value {\n            bail!(", "        if let (Some(value), true) = (&a.value, false) {\n            bail!("),
+ ("c14-strip-doc", ["C14"], IT, '            _ => false,\n        }\n    }\n\n    fn without_derive_ex', '            "doc" => true,\n            _ => false,\n        }\n    }\n\n    fn without_derive_ex'),
+ ("c14-strip-ord-always", ["C14"], IT, '"ord" => self.is_match_cmp_attr(CompareOp::Ord),', '"ord" => true,'),
+ ("c14-forget-variant-fields", ["C14"], IT, "        remove_attrs(&mut variant.attrs, &kinds);\n        for field in &mut variant.fields {\n            remove_attrs(&mut field.attrs, &kinds)\n        }", "        remove_attrs(&mut variant.attrs, &kinds);"),
+ ("c14-item-after-tokens", ["C14"], LB, "Ok(quote!(#item #ts))", "Ok(quote!(#ts #item))"),
+ ("c14-vis-mutation", ["C14"], IT, "    let result = build_by_item_struct_core(Some(attr), item, &mut kinds);\n    remove_attrs(&mut item.attrs, &kinds);", "    let result = build_by_item_struct_core(Some(attr), item, &mut kinds);\n    item.attrs.clear();\n    remove_attrs(&mut item.attrs, &kinds);"),
+ ("c15-attr-after-attrs", ["C15"], IT, "        if let Some(attr) = attr {\n            args_list.push(parse2(attr)?);\n        }\n        args_list.extend(parse_derive_ex_attrs(attrs)?);", "        args_list.extend(parse_derive_ex_attrs(attrs)?);\n        if let Some(attr) = attr {\n            args_list.push(parse2(attr)?);\n        }"),
+ ("c15-derive-kinds", ["C15"], IT, "fn build_from_derive_input(item: DeriveInput) -> Result<TokenStream> {\n    let mut kinds = HelperAttributeKinds::new(true);", "fn build_from_derive_input(item: DeriveInput) -> Result<TokenStream> {\n    let mut kinds = HelperAttributeKinds::new(false);"),
+ ("c15-dump-only-list", ["C15", "C19"], IT, "dump: a.dump | dump,", "dump: a.dump,"),
+ ("c16-unwrap-in-impl", ["C16"], II, "let op = Op::from_ident(&s.ident)?;", "let op = Op::from_ident(&s.ident).unwrap();"),
+ ("c16-hash-iteration", ["C16"], IT, "if let Some(a) = self.items.get(&kind) {", "if let Some(a) = self.items.values().find(|x| x.kind == kind) {"),
+ ("c16-deref-guard", ["C16"], IT, "if fields.len() != 1 {", "if fields.len() > 1 {"),
+ ("c19-dump-message", ["C19"], IT, '(Ok(ts), true) => Error::new(self.span, format!("dump:\\n{ts}")).to_compile_error(),', '(Ok(_ts), true) => Error::new(self.span, format!("dump:\\n{}", self.kind)).to_compile_error(),'),
+ ("c19-impl-dump-cond", ["C19"], II, "    if args.dump {\n        bail!", "    if args.dump && args.make_binary {\n        bail!"),
  # benign variants: every listed property must stay silent
  ("benign-rename-local", [], IT, "let use_bounds = e.push_bounds_to(&mut wcb);\n    let mut ctor_args = Vec::new();\n    let mut clone_from_exprs = Vec::new();", "let use_bounds = e.push_bounds_to(&mut wcb);\n    let mut ctor_args = Vec::new();\n    let mut clone_from_exprs = Vec::new();\n    let _unused_marker = 0;"),
 ]
-BENIGN_PROPS = ["C01", "C03", "C04", "C07", "C08", "C09", "C10", "C11", "C18"]
+BENIGN_PROPS = ["C01", "C03", "C04", "C07", "C08", "C09", "C10", "C11", "C12", "C13", "C14", "C15", "C19", "C20", "C18"]
 
 def sh(cmd, **kw): return subprocess.run(cmd, shell=True, capture_output=True, text=True, **kw)
 
@@ -61,7 +74,10 @@ def main():
             detail.append("tests: " + (t.stdout.strip() or "all pass"))
         check = props if props else BENIGN_PROPS
         for pr in check:
-            c = sh(f"timeout 600 {V}/genlint/target/release/genlint check {pr} --repo {WT} --verif {VS}")
+            if pr in ("C14", "C16"):
+                c = sh(f"cd {V} && VERIF_REPO={WT} VERIF_OUT={VS} timeout 900 ./check {pr}")
+            else:
+                c = sh(f"timeout 600 {V}/genlint/target/release/genlint check {pr} --repo {WT} --verif {VS}")
             fired = "VIOLATION property=" in c.stdout
             want = bool(props)
             if fired != want: ok = False
